@@ -151,24 +151,28 @@ func hasProp(ps []string, p string) bool {
 
 // functionsFor lists the functions whose obligations can belong to a property.
 func (c *Ctx) functionsFor(prop string) []string {
+	// Obligations inherit properties from callee contracts (preconditions at call sites), so the
+	// functions that can carry an obligation of a property are not only those whose own contract
+	// mentions it: every function under contract, and every function of the swept packages, is
+	// encoded and the obligations are filtered by property afterwards.
 	var out []string
 	for _, k := range c.sortedFuncs() {
 		fn := c.funcs[k]
 		pkg, _, _ := strings.Cut(k, "::")
 		fc := c.contractFor(fn)
-		if prop == "C15" && sweepPkgs[pkg] {
+		if sweepPkgs[pkg] {
 			out = append(out, k)
 			continue
 		}
 		if fc == nil || fc.Trusted {
 			continue
 		}
-		if contractMentions(fc, prop) {
-			out = append(out, k)
-		}
+		out = append(out, k)
 	}
 	return out
 }
+
+var _ = contractMentions
 
 func contractMentions(fc *FuncContract, prop string) bool {
 	if hasProp(fc.Props, prop) {
@@ -403,7 +407,7 @@ func cmdCheck(args []string) int {
 	})
 	type viol struct {
 		id, why, detail string
-		res              *Result
+		res             *Result
 	}
 	var viols []viol
 	seen := map[string]bool{}
@@ -495,21 +499,21 @@ func cmdCheck(args []string) int {
 		assumptions = append(assumptions, "contract files read from the /verif/contracts mirror for: "+strings.Join(c.mirrorUsed, ", "))
 	}
 	cov := map[string]any{
-		"obligations":              nOb,
-		"discharged":               nDis,
-		"checker_cmd":              fmt.Sprintf("bin/govc check -property %s -tier %s (z3-new 5.1.0, z3 4.8.12, cvc5 1.0.x; %ds per obligation)", *prop, *tier, timeout),
-		"trusted_base":             trustedBase(),
-		"functions_under_contract": out.funcs,
-		"covers":                   nCover,
+		"obligations":                     nOb,
+		"discharged":                      nDis,
+		"checker_cmd":                     fmt.Sprintf("bin/govc check -property %s -tier %s (z3-new 5.1.0, z3 4.8.12, cvc5 1.0.x; %ds per obligation)", *prop, *tier, timeout),
+		"trusted_base":                    trustedBase(),
+		"functions_under_contract":        out.funcs,
+		"covers":                          nCover,
 		"covers_satisfiable_or_undecided": nCoverOK,
 		"new_obligations_not_in_lock":     nNew,
-		"open_not_claimed":         openList,
-		"known_findings":           knownHit,
-		"by_solver":                solverCount,
-		"solver_seconds":           round3(solverSecs),
-		"encode_seconds":           round3(out.encSecs),
-		"samples":                  samples,
-		"unsupported":              out.unsupp,
+		"open_not_claimed":                openList,
+		"known_findings":                  knownHit,
+		"by_solver":                       solverCount,
+		"solver_seconds":                  round3(solverSecs),
+		"encode_seconds":                  round3(out.encSecs),
+		"samples":                         samples,
+		"unsupported":                     out.unsupp,
 	}
 	if *tier == "thorough" {
 		thorough(c, *prop, cov, seed)
